@@ -48,12 +48,21 @@ HAND = [
 ]
 
 REACTIONS = ['CC(=O)O.OCC>>CC(=O)OCC.O', '[CH3:1][Br:2].[OH-:3]>>[CH3:1][OH:3].[Br-:2]', 'C=C.C=CC=C>>C1CCC=CC1', 'CCO>[Na+].[OH-]>CC=O',
-             'c1ccccc1Br.OB(O)c1ccccc1>[Pd]>c1ccccc1-c1ccccc1', '[Na+].[Cl-].O>>O.[Na+].[Cl-]']
+             'c1ccccc1Br.OB(O)c1ccccc1>[Pd]>c1ccccc1-c1ccccc1', '[Na+].[Cl-].O>>O.[Na+].[Cl-]',
+             # spectator molecules: remove_reagents moves them to the reagents
+             '[CH3:1][Br:2].[OH-:3].[Na+:4].[OH2:5].[CH3:6][OH:7]>>[CH3:1][OH:3].[Br-:2]',
+             'CBr.[OH-].[Na+].O.CO>>CO.[Br-].[Na+].O.CO', '[CH3:1][I:2].[NH3:3].[K+:4].[Cl-:5]>[OH2:6]>[CH3:1][NH2:3].[I-:2]']
 
 SMARTS = ['[#6]', '[#6]-[#6]', '[#6]:[#6]', 'c1ccccc1', '[#6]=[#8]', '[#6](=[#8])-[#8]', '[#7]', '[#7;D1]', '[#6]-[#7]', '[#8;D1]',
           '[#6]1-[#6]-[#6]-1', '[#6;r5,r6]', '[#6;!R]', '[#6;D3;a]', '[#6]~[#6]~[#6]', '[#9,#17,#35,#53]', '[#6]-[#6]-[#6]-[#6]', '[#6]=[#6]', '[#6]#[#7]',
           '[#6;a]:[#7;a]', '[#16]', '[#6]-[#8]-[#6]', '[#6].[#8]', '[#11,#19].[#17,#35]', '[#6]-[#6](-[#6])-[#6]', '[#6;z2]',
           '[#6;x2]', '[#6;h3]']
+
+# reactor cases: (name, reactant patterns, product patterns, reactant molecules)
+REACTOR = [('esterification', ['[C;D3:1](=[O:2])-[O;D1:3]', '[O;D1:4]-[C;D2,D1:5]'], ['[C:1](=[O:2])-[O:4]-[C:5]'], ['CC(=O)O', 'OCC(O)CO']),
+           ('amide', ['[C;D3:1](=[O:2])-[O;D1:3]', '[N;D1:4]-[C:5]'], ['[C:1](=[O:2])-[N:4]-[C:5]'], ['OC(=O)CCC(=O)O', 'NCCN']),
+           ('nitro', ['[N+:1](=[O:2])-[O-:3]'], ['[N:1]'], ['[O-][N+](=O)c1ccc(cc1)[N+](=O)[O-]']),
+           ('halogen exchange', ['[C:1]-[Cl,Br:2]'], ['[C:1]-[I:2]'], ['ClCC(Br)CCl'])]
 
 FRAGMENTS = ['c1ccccc1', 'C(=O)O', 'CN', 'CC', 'C1CC1', 'CO', 'C=C']
 
@@ -243,6 +252,9 @@ def observe_ops(m, env):
         edit('remap+100', lambda c: c.remap({k: k + 100 for k in ks}))
         edit('add_atom+add_bond', lambda c: c.add_bond(c.add_atom('C'), ks[0], 1))
         edit('add_atom,delete_atom', lambda c: c.delete_atom(c.add_atom('O')))
+        far = next((k for k in reversed(ks) if k != ks[0] and k not in m._bonds[ks[0]]), None)
+        if far is not None:
+            edit('add_bond(between existing atoms)', lambda c: c.add_bond(ks[0], far, 1))
         edit('delete_atom(last)', lambda c: c.delete_atom(ks[-1]))
         if n > 1 and m._bonds[ks[-1]]:
             edit('delete_bond', lambda c: c.delete_bond(ks[-1], next(iter(c._bonds[ks[-1]]))))
@@ -275,15 +287,19 @@ def observe_ops(m, env):
 
 
 def observe_reaction(r, env):
+    def state(c):
+        return (str(c), [str(m) for m in c.reactants], [str(m) for m in c.reagents], [str(m) for m in c.products], safe(lambda: c.pack()))
     o = {'str': safe(lambda: str(r)), 'fmt:m': safe(lambda: format(r, 'm')), 'pack': safe(lambda: r.pack()),
-         'compose': safe(lambda: r.compose()), 'meta': safe(lambda: r.meta)}
-    for name in ('canonicalize', 'standardize', 'kekule', 'thiele', 'implicify_hydrogens', 'explicify_hydrogens', 'remove_reagents',
-                 'contract_ions', 'fix_mapping', 'check_valence'):
+         'compose': safe(lambda: r.compose()), 'meta': safe(lambda: r.meta), 'state': safe(lambda: state(r))}
+    for name, kw in (('canonicalize', {}), ('standardize', {}), ('kekule', {}), ('thiele', {}), ('implicify_hydrogens', {}),
+                     ('explicify_hydrogens', {}), ('remove_reagents', {}), ('remove_reagents', {'keep_reagents': True}),
+                     ('remove_reagents', {'keep_reagents': True, 'mapping': False}), ('contract_ions', {}), ('fix_mapping', {}),
+                     ('check_valence', {})):
         def one():
             c = r.copy()
-            res = getattr(c, name)()
-            return (res, str(c))
-        o['op:' + name] = safe(one)
+            res = getattr(c, name)(**kw)
+            return (res, state(c))
+        o[f'rxn-op:{name}' + (':' + ','.join(f'{k}={v}' for k, v in kw.items()) if kw else '')] = safe(one)
     o['hash-eq'] = safe(lambda: (r == r.copy(), len({r, r.copy()})))
     return o
 
@@ -420,6 +436,22 @@ def worker(spec_path, out_path):
         compare_variants(tag, first, observe_reaction(r, env), 'second call (cached)', intra)
         compare_variants(tag, first, observe_reaction(r.copy(), env), 'copy()', intra)
         obs[tag] = first
+    # reactor: the LIST of generated reactions, order included
+    if spec.get('reactor'):
+        from chython import Reactor
+        for name, qs, ps, ms in spec['reactor']:
+            tag = 'reactor:' + name
+            def run_reactor(**kw):
+                rx = Reactor([smarts(q) for q in qs], [smarts(q) for q in ps], **kw)
+                out = []
+                for r in itertools.islice(rx(*[smiles(s) for s in ms]), 25):
+                    out.append((str(r), [list(m._atoms) for m in r.products]))
+                return out
+            obs[tag] = {'reactions': safe(run_reactor), 'reactions(again)': safe(run_reactor),
+                        'reactions(automorphism_filter=False)': safe(lambda: run_reactor(automorphism_filter=False))}
+            if obs[tag]['reactions'] != obs[tag]['reactions(again)']:
+                intra.append({'input': tag, 'observable': 'reactions', 'variant': 'second call (cached)', 'first': obs[tag]['reactions'][:600],
+                              'other': obs[tag]['reactions(again)'][:600]})
     # files with str-keyed metadata
     for path in spec['sdf']:
         tag = 'sdf:' + os.path.basename(path)
@@ -476,6 +508,10 @@ def obs_code(kind, smi, name):
     """python text that prints one observable of one input (used in replays)"""
     pre = 'from chython import smiles, smarts, MoleculeContainer; import itertools; '
     if kind == 'reaction':
+        if name.startswith('rxn-op:'):
+            parts = name.split(':')
+            kw = ', '.join(parts[2].split(',')) if len(parts) > 2 else ''
+            return pre + f'r = smiles({smi!r}); x = r.{parts[1]}({kw}); print(x, [str(m) for m in r.reactants], [str(m) for m in r.reagents], [str(m) for m in r.products])'
         return pre + f'r = smiles({smi!r}); print(str(r))'
     m = f'm = smiles({smi!r}); '
     if name.startswith('match'):
@@ -523,7 +559,7 @@ def build_spec(ck):
     test_dir = os.path.join(common.REPO, 'test')
     sdf = sorted(os.path.join(test_dir, f) for f in os.listdir(test_dir) if f.endswith('.sdf'))[: (3 if quick else 8)] if os.path.isdir(test_dir) else []
     return {'repo': common.REPO, 'molecules': mols, 'reactions': [('rxn:' + s, s) for s in REACTIONS], 'smarts': SMARTS,
-            'fragments': FRAGMENTS, 'model_inputs': model_inputs, 'sdf': sdf, 'sdf_limit': 10 if quick else 40, 'reparse': True}
+            'fragments': FRAGMENTS, 'reactor': REACTOR, 'model_inputs': model_inputs, 'sdf': sdf, 'sdf_limit': 10 if quick else 40, 'reparse': True}
 
 
 def run_workers(ck, spec, seeds):
@@ -531,6 +567,10 @@ def run_workers(ck, spec, seeds):
     tmp = tempfile.mkdtemp(prefix='c19_')
     spec_path = os.path.join(tmp, 'spec.json')
     json.dump(spec, open(spec_path, 'w'))
+    # every process of this run executes the same snapshot of the worker code
+    import shutil
+    worker_py = os.path.join(tmp, 'c19_worker.py')
+    shutil.copy(os.path.abspath(__file__), worker_py)
     procs = []
     results = []
     env_base = dict(os.environ)
@@ -539,8 +579,10 @@ def run_workers(ck, spec, seeds):
     def launch(i, seed):
         out = os.path.join(tmp, f'out{i}.json')
         env = dict(env_base, PYTHONHASHSEED=str(seed))
-        p = subprocess.Popen(['/venv/bin/python', '-u', os.path.abspath(__file__), '--worker', spec_path, out], env=env,
-                             stdout=subprocess.PIPE, stderr=subprocess.STDOUT, text=True)
+        logf = open(os.path.join(tmp, f'log{i}.txt'), 'w')          # a file, not a pipe: a chatty worker must never block
+        p = subprocess.Popen(['/venv/bin/python', '-u', worker_py, '--worker', spec_path, out], env=env,
+                             stdout=logf, stderr=subprocess.STDOUT, text=True)
+        logf.close()
         return (i, seed, p, out)
     pending = list(enumerate(seeds))
     running = []
@@ -552,7 +594,7 @@ def run_workers(ck, spec, seeds):
         for r in list(running):
             i, seed, p, out = r
             if p.poll() is not None:
-                log = p.stdout.read()
+                log = open(os.path.join(tmp, f'log{i}.txt'), errors='replace').read()
                 res = None
                 if p.returncode == 0 and os.path.exists(out):
                     res = json.load(open(out))
@@ -563,7 +605,6 @@ def run_workers(ck, spec, seeds):
                 results.append((i, seed, None, 'TIMEOUT'))
                 running.remove(r)
         time.sleep(0.2)
-    import shutil
     shutil.rmtree(tmp, ignore_errors=True)
     results.sort()
     return results
@@ -575,7 +616,11 @@ def known_key(name):
 
 
 def family(name):
-    return name.split(':')[0] if name.startswith(('match', 'molmatch', 'op:', 'fmt:')) else name
+    if name.startswith(('match', 'molmatch', 'fmt:')):
+        return name.split(':')[0]
+    if name.startswith(('op:', 'rxn-op:')):
+        return ':'.join(name.split('{')[0].split(':')[:2])
+    return name
 
 
 def differential(ck, spec, results, label=''):
@@ -601,7 +646,7 @@ def differential(ck, spec, results, label=''):
     n_diff = 0
     families = {}
     for tag, ob in base['obs'].items():
-        kind = 'reaction' if tag.startswith('rxn:') else 'sdf' if tag.startswith('sdf:') else 'molecule'
+        kind = 'reaction' if tag.startswith('rxn:') else 'sdf' if tag.startswith(('sdf:', 'reactor:')) else 'molecule'
         nontrivial = not (len(ob) == 1 and 'parse' in ob)
         ck.count('inputs:' + tag.split(':')[0])
         for name, text in ob.items():
